@@ -9,6 +9,18 @@ theorem PCMFrame_eq_sound (a b : Frame) (hal : a.alignment = b.alignment) (h : F
   obtain ⟨h1, h2, h3, h4, h5, h6⟩ := (Frame_eq_iff a b).1 h
   simp only [Frame.pack, h1, h2, h3, h4, h5, h6, hal]
 
+/-- the hypothesis `hal` cannot be dropped: `PCMMinorFrame.__eq__` does not look at `alignment` (a constructor option),
+    and two frames that differ only there compare equal and encode differently (2- vs 4-byte data header) -/
+example :
+    let f0 : Frame := ⟨.rtc 1, false, some 7, [1, 2, 3, 4], 0, Option.none, Option.none⟩
+    let f1 : Frame := ⟨.rtc 1, false, some 7, [1, 2, 3, 4], 1, Option.none, Option.none⟩
+    Frame.eq f0 f1 = true ∧
+    (match f0.pack, f1.pack with | .ok x, .ok y => x != y | _, _ => false) = true := ⟨by decide, rfl⟩
+
+example :
+    let f : Frame := ⟨.ptp 7 8, false, some 0xFFFFFFFF, [1, 2, 3], 1, Option.none, Option.none⟩
+    f.alignment = f.alignment ∧ Frame.eq f f = true := ⟨rfl, by decide⟩
+
 theorem framesEq_pack (as bs : List Frame) (h : framesEq as bs = true)
     (hal : ∀ a ∈ as, ∀ b ∈ bs, a.alignment = b.alignment) : packList packFrame as = packList packFrame bs := by
   induction as generalizing bs with
@@ -27,6 +39,14 @@ theorem PCM_eq_sound (a b : Packet) (hal : ∀ x ∈ a.minor_frames, ∀ y ∈ b
   simp only [Packet.eq, Bool.and_eq_true, beq_iff_eq] at h
   simp only [Packet.pack, h.1, framesEq_pack _ _ h.2 hal]
 
+/-- non-vacuity: two packets that differ in the decoder options (source, assigned / detected size) compare equal -/
+example :
+    let f : Frame := ⟨.ptp 7 8, false, some 0xFFFFFFFF, [1, 2, 3], 1, Option.none, Option.none⟩
+    let a : Packet := ⟨0x200000, some 1, some 3, Option.none, Option.none, [f]⟩
+    let b : Packet := ⟨0x200000, some 0, Option.none, some 9, Option.none, [f]⟩
+    (∀ x ∈ a.minor_frames, ∀ y ∈ b.minor_frames, x.alignment = y.alignment) ∧ Packet.eq a b = true :=
+  ⟨by decide, by decide⟩
+
 theorem framesEq_refl (fs : List Frame) : framesEq fs fs = true := by
   induction fs with
   | nil => rfl
@@ -40,5 +60,16 @@ theorem PCM_eq_decode (a t : Packet) (n : Nat) (h : C04.PCM_WF a n) (ho : t.ipts
   refine ⟨b, hp, by rw [hu], ?_⟩
   rw [hu]
   simp [Packet.eq, C04.PCM_decoded, framesEq_refl]
+
+example :
+    let a : Packet := ⟨0x200000, some 1, some 3, Option.none, Option.none,
+      [⟨.ptp 7 8, false, some 0xFFFFFFFF, [1, 2, 3], 1, Option.none, Option.none⟩]⟩
+    let t : Packet := Packet.fresh (some 1) Option.none (some 3)
+    C04.PCM_WF a 3 ∧ t.ipts_source = a.ipts_source ∧ t.assigned = some 3 := by
+  refine ⟨⟨by simp, by simp [MODE_THROUGHPUT], ?_⟩, rfl, rfl⟩
+  intro f hf
+  simp only [List.mem_cons, List.mem_nil_iff, or_false] at hf
+  subst hf
+  simp [Frame_WF, Frame.fresh, Ipts_WF, hdrLen, MODE_ALIGNMENT, C04.pcmProto, sameKind, Gen.Ch11PayTs.TS_CH4]
 
 end Acra.Props.C14
